@@ -41,6 +41,9 @@ P = {
  "C19": ("exploration", "rapid PBT over match expressions (patterns aimed to hit or miss the subject); differential against a reference model of case selection, binding and evaluation order",
    "15k (300k thorough) programs with 1-3 match expressions: subjects of every kind, 1-5 cases x 1-3 alternatives (literals, identifiers, nested array patterns, deliberate misses), expression and block bodies with return/next/continue, poisoned later patterns that fault if evaluated, match in every syntactic use. Printed values and side-effect traces must equal refjq's. Exploration (model-based differential).",
    "Trusted: refjq's match semantics (DESIGN.md 4.5). Negative-number, regex and other expression patterns are unspecified and not generated; assignment to a bound name is not generated.", "5/C19, 4.5"),
+ "C03": ("fault_enumeration", "rapid PBT with an owned io.Reader: per generated stream every truncation point and every read-error position is enumerated (plus sampled byte corruption and stray characters) under generated chunking schedules; oracles: non-incremental reference splitter, composition law over per-value outputs, chunking independence, and read barriers for incrementality (no clocks)",
+   "1200 (40k thorough) streams of 0-6 values x 5 tracing programs x chunkings; for streams up to 60 (200) bytes every byte position is a truncation point, a read-error point and a read-error-with-data point: about 70k executions in the quick tier. A fault must surface as JsonError naming the file after exactly the output of the complete values; the output of value k must be written before the reader is asked for bytes beyond k+1. Fault enumeration (every truncation / error position of each generated stream).",
+   "Trusted: encoding/json used non-incrementally as the reference splitter (the JSON grammar is not under test, the streaming loop is). After a read error directly behind a top-level scalar the scalar may or may not count as complete.", "5/C03"),
  "C04": ("exploration", "rapid PBT, round trip: generated documents / program-built values -> -o or json() -> the harness's own strict JSON recogniser -> equality with the input as read or with refjq's value; cyclic and inexpressible values must be rejected",
    "10k (300k thorough) documents with random spelling (whitespace, escapes, number forms, duplicate keys, forced empty containers) through 8 non-modifying programs and 0-1 selector, a sample through the binary with -o - and -o FILE; 6k (150k) program-built values (auto-created, plucked, shared, cyclic of every shape, regex) through json() and as the root for -o; non-finite numbers. Exploration (round trip).",
    "Trusted: package jsonx (strict RFC 8259 recogniser, order-free equality, exact decimal -> double), refjq for the value a program builds. Strings are valid UTF-8 (JSON cannot carry other bytes).", "5/C04"),
